@@ -95,8 +95,9 @@ class ValidRange(Case):
             e.hi = mk.real("hi") if self.params["hi"] else None
         elif k == "int":
             e.x = mk.intseries("x", e.n)
-            e.lo = mk.integer("lo") if self.params["lo"] else None
-            e.hi = mk.integer("hi") if self.params["hi"] else None
+            # integer data, but the bounds of the span are any real numbers (the statement quantifies over all spans)
+            e.lo = mk.real("lo") if self.params["lo"] else None
+            e.hi = mk.real("hi") if self.params["hi"] else None
         else:
             e.x = mk.dtseries("x", e.n)
             e.lo = mk.dt("lo") if self.params["lo"] else None
@@ -105,9 +106,6 @@ class ValidRange(Case):
 
     def call(self, mod, e):
         return mod.valid_range_test(e.x, (e.lo, e.hi), start_inclusive=self.params["si"], end_inclusive=self.params["ei"])
-
-    def regions(self, e, res=None, k=None):
-        return {"integer-dtype-with-open-bound": self.params["kind"] == "int" and not (self.params["lo"] and self.params["hi"])}
 
     def post(self, e, res, k):
         x, miss = e.x.val(k), e.x.nan(k)
@@ -131,10 +129,18 @@ class ValidRange(Case):
     def post_global(self, e, res):
         return {"one_flag_per_element": alg.eq(res.n, e.n) if res.is_array else False}
 
+    def canary(self, e, res, k):
+        # integer data without bounds: every flag IS GOOD, so the default false clause would be true
+        if self.params["kind"] == "int" and not (self.params["lo"] or self.params["hi"]):
+            return alg.eq(res.flag(k), F)
+        return alg.eq(res.flag(k), G)
+
     def grid(self, tier, rng):
         k = self.params["kind"]
         alpha = (-2, -H, 0, 1, 3, None) if k == "float" else ((-2, 0, 1, 3) if k == "int" else (-2, 0, 1, 3, None))
         bounds = [(0, 1), (1, 0), (0, 0), (-2, 3), (1, 3)]
+        if k == "int":
+            bounds += [(H, 3), (0, 1 + H), (-H, H)]
         for xs in series_grid(3 if tier == "quick" else 4, alphabet=alpha):
             for lo, hi in bounds:
                 v = {"n": len(xs), "x": list(xs)}
